@@ -37,7 +37,16 @@ func main() {
 	noControls := flag.Bool("nocontrols", false, "skip the self-test overlays")
 	e1dump := flag.String("e1dump", "", "debug: print E1 summaries of functions whose name contains this string")
 	writeBaseline := flag.Bool("write-baseline", false, "print the function list of the repository (checker/baseline_funcs.txt)")
+	baselineFile := flag.String("baseline", "", "evaluation of old patches only: function list of the commit a patch was written for, instead of the built-in one (tools/ref_eval.sh)")
 	flag.Parse()
+	if *baselineFile != "" {
+		txt, err := os.ReadFile(*baselineFile)
+		if err != nil || len(txt) == 0 {
+			fmt.Println("UNDECIDED cannot read -baseline", *baselineFile)
+			os.Exit(2)
+		}
+		baselineFuncs = parseBaseline(string(txt))
+	}
 	if *writeBaseline {
 		WriteBaseline(*repo)
 		return
